@@ -27,6 +27,10 @@ def _colour_box(cr):
     nargs = c12.network_arg_sets(cr.tier)
     cr.bounded_check(run_contract_enum, "network-ids-box", c12.network_ids, nargs,
                      f"{len(nargs)} edge sets x colour maps: same relay network id iff same source entity and colour (contract evaluated on the real method)")
+    eargs = c12.collect_edges_arg_sets()
+    cr.bounded_check(run_contract_enum, "collect-circuit-edges-box", c12.collect_edges, eargs,
+                     f"{len(eargs)} signal graphs (two signals, 0..2 sources x 0..2 sinks each, resolved / unresolved names): one edge per (signal, source, sink) triple under the "
+                     "resolved name (contract evaluated on the real collect_circuit_edges / SignalGraph.iter_source_sink_pairs)")
     pargs = c12.populate_arg_sets()
     cr.bounded_check(run_contract_enum, "populate-wire-connections-box", c12.populate, pargs,
                      f"{len(pargs)} cases: edge sets of up to 3 edges over 3 entities x 2 signals, three colour maps, spanning tree on / off / failing: every edge is routed "
